@@ -336,3 +336,4 @@ def entry_pred_is_all_zero(I, pred):
         return False
     want = BV(1, [eq0_bit(tuple(sl('e', 0, 64)))])
     return len(outs) == 1 and outs[0].kind == 'ret' and isinstance(outs[0].val, BV) and same(outs[0].val, want)
+
